@@ -1,5 +1,5 @@
 (* C15 - pull-off: 3 s after Look to, or whenever the human treble actually goes. *)
-From Wh Require Import Prelude Permute PN Gens Complib Tower Rhythm PyStr Sys GensP BotP RegressP TimingP.
+From Wh Require Import Prelude Permute PN Gens Complib Tower Rhythm PyStr Sys GensP BotP RegressP TimingP SettingP.
 From Coq Require Import NArith ZArith QArith.
 Close Scope Q_scope.
 
@@ -37,3 +37,16 @@ Theorem C15_start_stays_infinite_until_leader : forall r bell st t r',
   end.
 Proof. exact start_stays_infinite_until_leader. Qed.
 
+
+(* a peal-speed setting that arrives while everybody is still waiting for a human leader to pull off: the new
+   speed is adopted, the line stays at infinity (no NaN, no jump), and a human bell's tick keeps polling for the
+   pull-off - nothing can be struck before the leader, and the first row is then placed at the NEW speed *)
+Theorem C15_speed_change_before_pull_off : forall r p t r',
+  r_start r = None -> ~ (r_interval r == 0)%Q -> (0 < p)%Z ->
+  regr_change_setting r KPealSpeed (VInt p) t = Ok r' ->
+  r_start r' = None
+  /\ r_interval r' = peal_speed_to_blow_interval (inject_Z p) (r_stage r)
+  /\ r_peal_speed r' = inject_Z p
+  /\ r_data r' = r_data r
+  /\ (forall now row place, regr_wait_plan r' now row place true = WPollPullOff).
+Proof. exact speed_change_before_pull_off. Qed.
